@@ -536,7 +536,7 @@ fn op_strategy() -> impl Strategy<Value = Op> {
         3 => any::<u8>().prop_map(|to| Op::Send { to }),
         2 => any::<u8>().prop_map(|name| Op::SendToName { name }),
         2 => any::<u8>().prop_map(|proc_| Op::Kill { proc_ }),
-        1 => (any::<u8>(), any::<i32>()).prop_map(|(caller, request)| Op::GenCall { caller, request }),
+        1 => (any::<u8>(), prop_oneof![Just(0i32), Just(1), Just(-1), Just(i32::MAX), Just(i32::MIN), any::<i32>()]).prop_map(|(caller, request)| Op::GenCall { caller, request }),
         1 => (any::<u8>(), -1000i32..1000).prop_map(|(caller, request)| Op::GenEventCall { caller, request }),
     ]
 }
